@@ -107,8 +107,17 @@ def iter_(ctx, K, events=None, changing=None):
                 if not want:
                     continue          # attrs=[] is documented as "all attributes"
                 flagged = sorted(p for p in psutil._pids_reused if p in t.listed())
+                # cached objects whose PID was recycled since: `ppid` runs the re-use check, which raises NoSuchProcess in the middle of
+                # the pass, so that PID is dropped from this pass too (known finding C04-reused-pid-skipped-during-pass)
+                stale = sorted(p for p, (o_, g_) in cache.items() if p in t.listed() and t.gen[p] != g_ and p not in flagged) if "ppid" in want else []
                 got = ctx.guard("attrs-info-keys", lambda: list(psutil.process_iter(attrs=want)))
-                _check_listing(ctx, [x.pid for x in got], t.listed(), flagged)
+                if stale:
+                    gp, listed_ = [x.pid for x in got], t.listed()
+                    ctx.prove(gp == listed_, "one-per-listed-pid[recycled-found-during-pass]", detail=f"{gp} vs {listed_}; cached objects of recycled PIDs: {stale}")
+                    ctx.prove(gp in (listed_, [p for p in listed_ if p not in stale and p not in flagged], [p for p in listed_ if p not in stale], [p for p in listed_ if p not in flagged]),
+                              "listing-correct-or-known-omission", detail=f"{gp} vs {listed_} stale={stale} flagged={flagged}")
+                else:
+                    _check_listing(ctx, [x.pid for x in got], t.listed(), flagged)
                 ctx.prove(all(set(x.info) == set(want) for x in got), "attrs-info-keys", detail=f"{want}")
                 for x in got:
                     if x.pid not in cache or cache[x.pid][0] is not x:
